@@ -15,10 +15,16 @@ Lemma Forall2_len {A B} (P : A -> B -> Prop) la lb : Forall2 P la lb -> length l
 Proof. induction 1; cbn; congruence. Qed.
 
 (* ---------- keys ---------- *)
+Lemma onat_eqb_spec a b : onat_eqb a b = true <-> a = b.
+Proof.
+  destruct a as [x|], b as [y|]; cbn; try (split; [discriminate|discriminate]); [|split; reflexivity].
+  rewrite Nat.eqb_eq. split; [intros ->; reflexivity|intro H; inversion H; reflexivity].
+Qed.
+
 Lemma pkey_eqb_spec a b : pkey_eqb a b = true <-> a = b.
 Proof.
   destruct a as [[[ka ia] qa] ba], b as [[[kb ib] qb] bb]. cbn.
-  rewrite !andb_true_iff, !oname_eqb_spec, Nat.eqb_eq, eqb_true_iff. split.
+  rewrite !andb_true_iff, !oname_eqb_spec, onat_eqb_spec, eqb_true_iff. split.
   - intros [[[-> ->] ->] ->]. reflexivity.
   - intro H. inversion H. auto.
 Qed.
@@ -26,17 +32,9 @@ Qed.
 Lemma pkey_eqb_refl k : pkey_eqb k k = true.
 Proof. apply pkey_eqb_spec. reflexivity. Qed.
 
-Lemma inst_key_not_accept n : inst_key n <> inl Accept.
-Proof.
-  intro H. unfold inst_key in H. destruct n as [s|]; [|discriminate H].
-  destruct (starts_with asg_prefix s); [|discriminate H]. destruct (asg_width s); discriminate H.
-Qed.
-
 Lemma pin_key_not_accept x insts p : pin_key x insts p <> inl Accept.
 Proof.
-  intro H. unfold pin_key in H. destruct (resolve x insts p) as [q b|o| |]; try discriminate H.
-  pose proof (inst_key_not_accept (op_inst o)) as Hn.
-  destruct (inst_key (op_inst o)) as [e|k]; [|discriminate H]. congruence.
+  intro H. unfold pin_key in H. destruct (resolve x insts p) as [q b|o| |]; discriminate H.
 Qed.
 
 (* ---------- the table of the second wire ---------- *)
